@@ -591,6 +591,27 @@ pub fn run_c15(ctx: &mut Ctx, shard: usize, nshards: usize) {
             check_c15_direct(ctx, &d);
         }
     }
+    // control information of 64 KiB and more (the byte length no longer fits 16 bits): every decoder behind
+    // its home (kind, format), and the direct parsers
+    if ctx.scale >= 0.5 {
+        let mut k = 0usize;
+        for len in [65_528usize, 65_532, 65_536, 65_540, 65_544, 131_072, 262_128] {
+            for f in 0..5usize {
+                k += 1;
+                if k % nshards != shard {
+                    continue;
+                }
+                let (transport, fmt) = home(f);
+                let mut fci: Vec<u8> = (0..len).map(|i| (i as u32).wrapping_mul(2_654_435_761).to_be_bytes()[1]).collect();
+                if f == 3 {
+                    fci[0] = 13; // RPSI: a plausible number of padding bits
+                }
+                check_c15(ctx, transport, fmt, &fci);
+                check_c15_direct(ctx, &fci);
+                ctx.class("c15:fci>=64KiB");
+            }
+        }
+    }
     if ctx.thorough && !cfg!(debug_assertions) && ctx.scale >= 1.0 {
         exhaustive_words(ctx, shard, nshards);
     }
@@ -615,6 +636,7 @@ pub fn floor_c15(ctx: &Ctx) -> Vec<(String, bool)> {
         let c = format!("c15:decoded:{n}");
         f.push((c.clone(), all.contains_key(&c)));
     }
+    f.push(("c15:fci>=64KiB".to_string(), all.contains_key("c15:fci>=64KiB")));
     for r in 0..4 {
         let c = format!("c15:direct:len%4={r}");
         f.push((c.clone(), all.contains_key(&c)));
